@@ -98,7 +98,9 @@ def gen(R):
                 m = R.rng.choice([-1, -1, 0, 1, 2, 3, 7])
                 seq.append(("set", mid, a, b - a, m))
                 bounds[mid] += [a, b]
-            elif k < 0.9:
+            elif k < 0.84:
+                seq.append(("reinst", mid))
+            elif k < 0.92:
                 dst = R.rng.randrange(4)
                 seq.append(("copy", mid, dst))
                 if dst != mid:
@@ -128,6 +130,9 @@ def to_lines(seq, R, probes):
             lines.append("copy %d %d 1 1" % (s, d))
         elif op[0] == "new":
             lines.append("new %d" % op[1])
+        elif op[0] == "reinst":
+            lines.append("reinst %d" % op[1])
+            lines.append("search %d %d" % (op[1], W - 1))
     return lines
 
 
@@ -162,6 +167,10 @@ def check_property(lines, outs):
             if view != refs[mid].segs:
                 return i, "function view after set(%#x..%#x -> %d) is %s, expected %s" % (a, a + e, m, fmt(view), fmt(refs[mid].segs))
             lastmap[mid] = ranges
+        elif w[0] == "reinst":
+            mid = int(w[1])
+            if t[0] != "ok" or parse_map(t[1:]) != lastmap[mid]:
+                return i, "map changed by being installed in a translation system and taken back: %s -> %s" % (lastmap[mid], o)
         elif w[0] == "search":
             mid, a = int(w[1]), int(w[2])
             if int(t[0]) != refs[mid].at(a):
